@@ -72,8 +72,16 @@ func c05Gen(r *Rand, tier string) interface{} {
 	return in
 }
 
-func (in *c05In) settings(cipher string, secret, salt string, hostOnly bool) encryptfs.Settings {
-	return encryptfs.Settings{Secret: []byte(secret), Salt: []byte(salt), HostOnly: hostOnly, Cipher: cipherFor(map[string]string{"aes": "enc-aes", "ext": "enc-ext"}[cipher])}
+// settings builds the settings of one instance. All instances of a run take their secret
+// from ONE shared byte slice with spare capacity (as a program holding its configured secret
+// in a buffer would): an instance that appends to the caller's slice instead of copying it
+// corrupts the key material of the instances created before it.
+func (in *c05In) settings(shared *[]byte, cipher string, secret, salt string, hostOnly bool) encryptfs.Settings {
+	if *shared == nil {
+		*shared = make([]byte, 0, 256)
+	}
+	sec := append((*shared)[:0], secret...)
+	return encryptfs.Settings{Secret: sec[:len(secret):cap(sec)], Salt: []byte(salt), HostOnly: hostOnly, Cipher: cipherFor(map[string]string{"aes": "enc-aes", "ext": "enc-ext"}[cipher])}
 }
 
 func c05Run(inI interface{}, env *Env) *Failure {
@@ -86,8 +94,18 @@ func c05Run(inI interface{}, env *Env) *Failure {
 	b := newBackend(kind, nil, false)
 	defer b.cleanup()
 	raw := b.raw
+	var shared []byte
 	mk := func(cipher, secret, salt string, hostOnly bool) filesystem.Filespace {
-		fs, err := encryptfs.NewEncryptFS(raw, in.settings(cipher, secret, salt, hostOnly))
+		if secret != in.Secret {
+			// a different secret lives in its own buffer; the shared one belongs to the configured secret
+			var own []byte
+			fs, err := encryptfs.NewEncryptFS(raw, in.settings(&own, cipher, secret, salt, hostOnly))
+			if err != nil {
+				panic(harnessTrouble{err.Error()})
+			}
+			return fs
+		}
+		fs, err := encryptfs.NewEncryptFS(raw, in.settings(&shared, cipher, secret, salt, hostOnly))
 		if err != nil {
 			panic(harnessTrouble{err.Error()})
 		}
@@ -190,13 +208,28 @@ func c05Run(inI interface{}, env *Env) *Failure {
 	}
 	others := []other{
 		{"another secret", func() filesystem.Filespace { return mk(in.Cipher, in.Secret+"x", in.Salt, in.HostOnly) }},
-		{"another salt", func() filesystem.Filespace { return mk(in.Cipher, in.Secret, in.Salt+"x", in.HostOnly) }},
+		{"another salt", func() filesystem.Filespace { return mk(in.Cipher, in.Secret, "x"+in.Salt, in.HostOnly) }},
 	}
 	for _, o := range others {
 		env.Count("fault.wrong-key:" + o.what)
 		if f := attack("a reader using "+o.what, stored, o.fs()); f != nil {
 			return f
 		}
+	}
+	stillReadable := func(when string) *Failure {
+		for _, pv := range []struct {
+			name string
+			fs   filesystem.Filespace
+		}{{"the writing instance", w}, {"the second instance with equal settings", rd}} {
+			r := RunFsOp(pv.fs, FsOp{Kind: "ReadFile", Path: path})
+			if r.Panic != "" || r.Err != nil || !bytes.Equal(r.Data, []byte(plain)) {
+				return failf("C05/round-trip", key+"/after-other-instances", "%s: %s can no longer read its file: err=%v panic=%q data=%s", when, pv.name, r.Err, r.Panic, short(string(r.Data)))
+			}
+		}
+		return nil
+	}
+	if f := stillReadable("after an instance with another salt was created from the same secret"); f != nil {
+		return f
 	}
 	// The statement's error clause names another secret or salt only. Readers that differ in
 	// the host-binding setting, the host id or the cipher framing are exercised for panics;
@@ -229,10 +262,14 @@ func c05Run(inI interface{}, env *Env) *Failure {
 			return f
 		}
 	}
+	if f := stillReadable("after instances with other settings were created from the same secret"); f != nil {
+		return f
+	}
 	// name-space operations behave as on the underlying filespace (C01 refinement through the view)
 	if len(in.Ops) > 0 {
 		b2 := newBackend("mem", nil, false)
-		enc, err := encryptfs.NewEncryptFS(b2.raw, in.settings(in.Cipher, in.Secret, in.Salt, in.HostOnly))
+		var own2 []byte
+		enc, err := encryptfs.NewEncryptFS(b2.raw, in.settings(&own2, in.Cipher, in.Secret, in.Salt, in.HostOnly))
 		if err != nil {
 			panic(harnessTrouble{err.Error()})
 		}
